@@ -104,3 +104,11 @@ func DeflateStoredSniff(data []byte, first byte, firstLen int) []byte {
 	w.stored(data[firstLen:], true, 0)
 	return w.out
 }
+
+// DeflateStoredFinalSniff returns a one-block stored stream (data must be at most 65535 bytes) whose
+// first byte is `first` (low three bits 001: final stored block). The second byte is byte(len(data)).
+func DeflateStoredFinalSniff(data []byte, first byte) []byte {
+	n := len(data)
+	out := []byte{first&^7 | 1, byte(n), byte(n >> 8), byte(^n), byte((^n) >> 8)}
+	return append(out, data...)
+}
